@@ -167,6 +167,22 @@ impl RefMut {
     final(st).drops@ == obj_drop_count::<T>(old(self).kind, old(self).detached, old(st).drops@), // [C13]
 //@@end
 
+//@@fn file=object.rs scope="impl<T, A: Allocator> crate::Buffer for RefMut<'_, T, A> {" name=capacity rename=capacity_ref_mut xlate=plain props=C13,C03,C01
+//@contract
+  ensures r as int == self.allocated.ptr_size as int, // [C03 C13]
+//@@end
+//@@fn file=object.rs scope="impl<T, A: Allocator> crate::Buffer for RefMut<'_, T, A> {" name=offset rename=offset_ref_mut xlate=plain props=C13,C03,C01
+//@contract
+  ensures r as int == self.allocated.ptr_offset as int, // [C03 C13]
+//@@end
+//@@fn file=object.rs scope="impl<T, A: Allocator> crate::Buffer for RefMut<'_, T, A> {" name=buffer_capacity rename=buffer_capacity_ref_mut xlate=plain props=C13,C03,C01
+//@contract
+  ensures r as int == self.allocated.memory_size as int, // [C13 C01]
+//@@end
+//@@fn file=object.rs scope="impl<T, A: Allocator> crate::Buffer for RefMut<'_, T, A> {" name=buffer_offset rename=buffer_offset_ref_mut xlate=plain props=C13,C03,C01
+//@contract
+  ensures r as int == self.allocated.memory_offset as int, // [C13 C01]
+//@@end
 //@@fn file=object.rs scope="impl<T, A: Allocator> crate::Buffer for RefMut<'_, T, A> {" name=detach rename=detach_ref_mut xlate=plain props=C13
 //@contract
   ensures *final(self) == (RefMut { detached: true, ..*old(self) }), // [C13]
@@ -187,6 +203,22 @@ impl Owned {
     final(st).drops@ == obj_drop_count::<T>(old(self).kind, old(self).detached, old(st).drops@), // [C13]
 //@@end
 
+//@@fn file=object.rs scope="impl<T, A: Allocator> crate::Buffer for Owned<T, A> {" name=capacity rename=capacity_owned xlate=plain props=C13,C03,C01
+//@contract
+  ensures r as int == self.allocated.ptr_size as int, // [C03 C13]
+//@@end
+//@@fn file=object.rs scope="impl<T, A: Allocator> crate::Buffer for Owned<T, A> {" name=offset rename=offset_owned xlate=plain props=C13,C03,C01
+//@contract
+  ensures r as int == self.allocated.ptr_offset as int, // [C03 C13]
+//@@end
+//@@fn file=object.rs scope="impl<T, A: Allocator> crate::Buffer for Owned<T, A> {" name=buffer_capacity rename=buffer_capacity_owned xlate=plain props=C13,C03,C01
+//@contract
+  ensures r as int == self.allocated.memory_size as int, // [C13 C01]
+//@@end
+//@@fn file=object.rs scope="impl<T, A: Allocator> crate::Buffer for Owned<T, A> {" name=buffer_offset rename=buffer_offset_owned xlate=plain props=C13,C03,C01
+//@contract
+  ensures r as int == self.allocated.memory_offset as int, // [C13 C01]
+//@@end
 //@@fn file=object.rs scope="impl<T, A: Allocator> crate::Buffer for Owned<T, A> {" name=detach rename=detach_owned xlate=plain props=C13
 //@contract
   ensures *final(self) == (Owned { detached: true, ..*old(self) }), // [C13]
